@@ -756,9 +756,9 @@ func (gs *GossipSubRouter) OnClosedIncomingStream(pid peer.ID, proto protocol.ID
 	if gs.gate != nil {
 		gs.gate.OnClosedIncomingStream(pid, proto)
 	}
-	if gs.feature(GossipSubFeatureExtensions, proto) {
-		gs.extensions.OnClosedIncomingStream(pid, proto)
-	}
+	// extensionsState.HandleRPC records the first RPC of every peer, whatever
+	// protocol its stream speaks, so the record must be dropped for every peer.
+	gs.extensions.OnClosedIncomingStream(pid, proto)
 }
 
 func (gs *GossipSubRouter) OnNewOutboundStream(p peer.ID, proto protocol.ID, helloPacket *RPC) *RPC {
